@@ -87,10 +87,105 @@ def run(ctx: core.Check):
         tr.ev("Error", cause=cause, rc=rc, tb=tb, written=out.is_file() and out.stat().st_size > 0)
         ctx.count("evaluations")
         ctx.nontriv(("error", cause, args[0]))
+    failure_table(ctx, tr, d, ref)
     ctx.sample({"scenario": tr.scn[1], "event": tr.events[1]})
     toolrun.report(ctx, tr, module="Cli_Trace", label="cli", cap=50, keyfn=lambda b, s: f"{b['clause']}:{json.dumps(s, sort_keys=True)}")
     ctx.cov["states"] = max(ctx.cov["states"], 1)
     ctx.cov["transitions"] = max(ctx.cov["transitions"], 1)
+
+
+def failure_table(ctx, tr, d, ref):
+    """Use B/C for Cli.tla's failure table: every (sub-command, cause) enumerated by TLC (Cli_MC) is executed through the real
+    CLI; exit status and what is left behind are judged by FailureJudge."""
+    from . import c07_storage, signrun, tlc
+    g = ctx.mc("Cli_MC", "Cli_MC.cfg", workers=1, coverage=False, label="A/B: failure table")
+    scns = g.tagged("SCN")
+    f = d / "fail"
+    f.mkdir()
+    keys = signrun.Keys(f / "keys")
+    ss, kms = signrun.sign_scripts()
+    es = str(core.REPO / "ncs" / "encrypt_script.py")
+    sh = envgen.random_shape(ctx.rng, maxdepth=0, small=True)
+    sh.update({"pad": None, "deps": [], "cid": ["mid", "nordicsemi.com", "nRF54H20_sample_app"], "pay": [["#p", 33, "hex", 5]]})
+    env = toolrun.create_lib(envgen.Builder(f / "b").desc(sh, toolrun.create_lib))
+    (f / "env.suit").write_bytes(env)
+    signrun.sign_single(f / "env.suit", f / "signed.suit", keys, "ked", 7, "eddsa", "error")
+    big = dict(sh, pay=[["#big", 9000, "hex", 6]])
+    (f / "big.suit").write_bytes(toolrun.create_lib(envgen.Builder(f / "b2").desc(big, toolrun.create_lib)))
+    (f / "fw.bin").write_bytes(b"x" * 100)
+    (f / "notpem.pem").write_text("hello")
+    (f / "broken.yaml").write_text("SUIT_Envelope_Tagged: [unclosed\n")
+    (f / "unknown.yaml").write_text(yaml.dump({"SUIT_Envelope_Tagged": {"suit-manifest": {"no-such-key": 1}}}))
+    (f / "bad.suit").write_bytes(b"\xd8\x6b\xa1\x02")
+    (f / "cfg_absent.json").write_text(json.dumps({"key-name": "ked", "key-id": "0x7", "alg": "eddsa", "context": str(keys.dir), "sign-script": ss,
+                                                  "kms-script": kms, "dependencies": {"#nothere": {"key-name": "ked", "key-id": "0x8"}}}))
+    # caches and MPI inputs made by the tool itself
+    subprocess.run(core.cli_cmd("cache_create", "from_payloads", "--output-file", f / "c1.bin", "--eb-size", "8", "--input", f"#a,{f / 'fw.bin'}"),
+                   cwd=f, env=core.cli_env(), capture_output=True)
+    subprocess.run(core.cli_cmd("mpi", "generate", "--output-file", f / "mpi1.hex", "--address", "0x2000", "--size", "48", "--vendor-name", "v",
+                                "--class-name", "c"), cwd=f, env=core.cli_env(), capture_output=True)
+    (f / "eo").mkdir()
+    o = f / "out.suit"
+    sign = ["--key-id", "7", "--context", keys.dir, "--sign-script", ss, "--kms-script", kms]
+    enc = ["--key-id", "7", "--context", keys.dir, "--kms-script", kms, "--encrypt-script", es, "--output-dir", f / "eo"]
+    table = {
+        ("create", "missing-input"): (["create", "--input-file", f / "nope.yaml", "--output-file", o], [o]),
+        ("create", "unknown-key"): (["create", "--input-file", f / "unknown.yaml", "--output-file", o], [o]),
+        ("create", "broken-yaml"): (["create", "--input-file", f / "broken.yaml", "--output-file", o], [o]),
+        ("parse", "missing-input"): (["parse", "--input-file", f / "nope.suit", "--output-file", f / "o.yaml"], [f / "o.yaml"]),
+        ("parse", "bad-cbor"): (["parse", "--input-file", f / "bad.suit", "--output-file", f / "o.yaml"], [f / "o.yaml"]),
+        ("sign", "missing-input"): (["sign", "single-level", "--input-envelope", f / "nope.suit", "--output-envelope", o, "--key-name", "ked", "--alg", "eddsa"] + sign, [o]),
+        ("sign", "missing-key"): (["sign", "single-level", "--input-envelope", f / "env.suit", "--output-envelope", o, "--key-name", "nokey", "--alg", "eddsa"] + sign, [o]),
+        ("sign", "key-type-mismatch"): (["sign", "single-level", "--input-envelope", f / "env.suit", "--output-envelope", o, "--key-name", "ked", "--alg", "es-256"] + sign, [o]),
+        ("sign", "already-signed-error"): (["sign", "single-level", "--input-envelope", f / "signed.suit", "--output-envelope", o, "--key-name", "ked", "--alg", "eddsa",
+                                            "--already-signed-action", "error"] + sign, [o]),
+        ("sign-recursive", "missing-configuration"): (["sign", "recursive", "--input-envelope", f / "env.suit", "--output-envelope", o, "--configuration", f / "nocfg.json"], [o]),
+        ("sign-recursive", "absent-dependency"): (["sign", "recursive", "--input-envelope", f / "env.suit", "--output-envelope", o, "--configuration", f / "cfg_absent.json"], [o]),
+        ("payload_extract", "missing-input"): (["payload_extract", "--input-envelope", f / "nope.suit", "--output-envelope", o, "--payload-name", "#p",
+                                                "--output-payload-file", f / "p.bin"], [o, f / "p.bin"]),
+        ("payload_extract", "absent-payload"): (["payload_extract", "--input-envelope", f / "env.suit", "--output-envelope", o, "--payload-name", "#zz",
+                                                 "--output-payload-file", f / "p.bin"], [o, f / "p.bin"]),
+        ("cache_create", "missing-file"): (["cache_create", "from_payloads", "--output-file", f / "c.bin", "--eb-size", "16", "--input", f"#a,{f / 'nofile.bin'}"], [f / "c.bin"]),
+        ("cache_create", "duplicate-uri"): (["cache_create", "from_payloads", "--output-file", f / "c.bin", "--eb-size", "16", "--input", f"#a,{f / 'fw.bin'}",
+                                             "--input", f"#a,{f / 'fw.bin'}"], [f / "c.bin"]),
+        ("cache_create", "malformed-input-argument"): (["cache_create", "from_payloads", "--output-file", f / "c.bin", "--eb-size", "16", "--input", f / "fw.bin"], [f / "c.bin"]),
+        ("cache_create", "zero-erase-block"): (["cache_create", "from_payloads", "--output-file", f / "c.bin", "--eb-size", "0", "--input", f"#a,{f / 'fw.bin'}"], [f / "c.bin"]),
+        ("cache_create-merge", "duplicate-uri"): (["cache_create", "merge", "--output-file", f / "c.bin", "--eb-size", "16", "--input", f / "c1.bin", "--input", f / "c1.bin"], [f / "c.bin"]),
+        ("mpi-generate", "area-smaller-than-record"): (["mpi", "generate", "--output-file", f / "m.hex", "--address", "0x1000", "--size", "8", "--vendor-name", "v",
+                                                        "--class-name", "c"], [f / "m.hex"]),
+        ("mpi-merge", "missing-input"): (["mpi", "merge", "--output-file", f / "m.hex", "--address", "0x2000", "--size", "96", "--file", f / "nompi.hex"], [f / "m.hex"]),
+        ("mpi-merge", "input-outside-area"): (["mpi", "merge", "--output-file", f / "m.hex", "--address", "0x3000", "--size", "96", "--file", f / "mpi1.hex"], [f / "m.hex"]),
+        ("image-boot", "missing-input"): (["image", "boot", "--input-file", f / "nope.suit", "--storage-output-directory", f / "bo"], [f / "bo"]),
+        ("image-boot", "envelope-larger-than-slot"): (["image", "boot", "--input-file", f / "big.suit", "--storage-output-directory", f / "bo"], [f / "bo"]),
+        ("image-update", "missing-input"): (["image", "update", "--input-file", f / "nope.suit", "--storage-output-file", f / "s.hex",
+                                             "--dfu-partition-output-file", f / "p.hex"], [f / "s.hex", f / "p.hex"]),
+        ("keys", "unsupported-combination"): (["keys", "--output-file", f / "kk", "--type", "ed25519", "--private-format", "pkcs1"], [f / "kk_priv.pem", f / "kk_pub.pem"]),
+        ("convert", "missing-input"): (["convert", "--input-file", f / "nokey.pem", "--output-file", f / "k.c"], [f / "k.c"]),
+        ("convert", "not-a-pem-key"): (["convert", "--input-file", f / "notpem.pem", "--output-file", f / "k.c"], [f / "k.c"]),
+        ("encrypt", "missing-firmware"): (["encrypt", "encrypt-and-generate", "--firmware", f / "nofw.bin", "--key-name", "fwenc"] + enc,
+                                          [f / "eo" / n for n in ("encrypted_content.bin", "plain_text_digest.bin", "plain_text_size.txt", "suit_encryption_info.bin")]),
+        ("encrypt", "missing-key"): (["encrypt", "encrypt-and-generate", "--firmware", f / "fw.bin", "--key-name", "nosuchkey"] + enc,
+                                     [f / "eo" / n for n in ("encrypted_content.bin", "plain_text_digest.bin", "plain_text_size.txt", "suit_encryption_info.bin")]),
+    }
+    for s in scns:
+        key = (s["cmd"], s["cause"])
+        if key not in table:
+            raise core.MachineryError(f"no executor for failure scenario {key}")
+        args, outs = table[key]
+        for p_ in outs:
+            if p_.is_dir():
+                import shutil
+                shutil.rmtree(p_)
+            elif p_.exists():
+                p_.unlink()
+        rc, tb = cli(f, *args)
+        left = any((p_.is_dir() and any(p_.iterdir())) or p_.is_file() for p_ in outs)
+        tr.begin({"failure": s})
+        tr.ev("Failure", cmd=s["cmd"], cause=s["cause"], rc=rc, left=left)
+        if s["dev"] != "none":
+            ctx.observe(f"O15 deviation {s['dev']} taken by {s['cmd']} / {s['cause']} (exit status {rc}, output left behind: {left})")
+        ctx.count("evaluations")
+        ctx.nontriv(("failure", s["cmd"], s["cause"]))
 
 
 def replay(ctx, rec):
